@@ -168,9 +168,27 @@ def model_tie_case(ctx: Ctx, case: Dict[str, Any], suite: str):
     if not leaves:
         ctx.case(suite, {"state": gen.short(case["state"]), "leaves": 0}, nontrivial=False)
         return
+    # restore targets: none / pre-allocated with junk contents (in place) / wrong shape; the same targets go to the model
+    import e2e
+    import zlib
+    tmode = ["fresh", "inplace", "inplace", "wrong"][zlib.crc32(repr(case["state"]).encode()) % 4]
+    targets = e2e.target_like(saved, tmode, None) if isinstance(saved, dict) else None
+    dsts = []
+    if targets is not None:
+        _, tflat = flatten(targets, prefix="s")
+        for lp in flat_paths:
+            if isinstance(manifest["0/" + lp], PrimitiveEntry):
+                continue
+            tv = tflat.get(lp)
+            if isinstance(tv, torch.Tensor) and gen.DT_NAME.get(tv.dtype) in BP:
+                dsts.append({"dtype": gen.DT_NAME[tv.dtype], "shape": list(tv.shape), "bytes": list(gen.tensor_bytes(tv))})
+            else:
+                dsts.append(None)
     if ctx.driver:
         req = {"op": "c01_plan", "cfg": {"chunk": kn.get("chunk") or DEFAULT_CHUNK, "slab": kn.get("slab") or DEFAULT_SLAB,
                                           "batching": not kn.get("nobatch")}, "reverse": bool(case.get("reverse")), "leaves": leaves}
+        if len(dsts) == len(leaves):
+            req["dst"] = dsts
         rep = ctx.driver.call(req)
         if "entries" not in rep:
             ctx.disagree("c01_plan", {"case": case}, "real take succeeded", rep, "model rejected a state the code accepts")
@@ -187,8 +205,12 @@ def model_tie_case(ctx: Ctx, case: Dict[str, Any], suite: str):
                              {kk: list(mobjs.get(kk) or b"")[:40] for kk in bad}, "stored bytes differ")
             if rep.get("restored") != leaves:
                 ctx.disagree("c01_plan.restored", {"case": case}, "saved leaves", rep.get("restored"), "model restore differs from saved leaves")
+            if rep.get("restored_into") != leaves:
+                ctx.disagree("c01_plan.restored_into", {"case": case, "target_mode": tmode}, "saved leaves", rep.get("restored_into"),
+                             "model restore into the given targets differs from saved leaves")
     # real restore (oracle) under independent knobs
-    dst = gen.RecStateful({kk: None for kk in saved} if isinstance(saved, dict) else None)
+    dst = gen.RecStateful(targets if targets is not None else ({kk: None for kk in saved} if isinstance(saved, dict) else None))
+    ctx.count("tie.target." + tmode)
     with sim.knobs(**case["restore_knobs"]):
         try:
             world.run1(lambda: Snapshot(ROOT).restore({"s": dst}))
